@@ -84,6 +84,15 @@ func c06Cases(tier string, seed int64) []core.Case {
 				}
 				return c06Mutated(ctx, server, dotu, 4, n)
 			}})
+			cases = append(cases, core.Case{ID: fmt.Sprintf("tinymsize-akaros-pipelined/%s/dotu=%v", server, dotu), Run: func(ctx *core.Ctx) core.Result {
+				old := *go9p.Akaros
+				*go9p.Akaros = true
+				defer func() { *go9p.Akaros = old }()
+				return c06TinyPipelined(ctx, server, dotu)
+			}})
+			cases = append(cases, core.Case{ID: fmt.Sprintf("tinymsize-pipelined/%s/dotu=%v", server, dotu), Run: func(ctx *core.Ctx) core.Result {
+				return c06TinyPipelined(ctx, server, dotu)
+			}})
 			cases = append(cases, core.Case{ID: fmt.Sprintf("listener/%s/dotu=%v", server, dotu), Run: func(ctx *core.Ctx) core.Result {
 				return c06Listener(ctx, server, dotu)
 			}})
@@ -851,5 +860,42 @@ func c06Listener(ctx *core.Ctx, server string, dotu bool) core.Result {
 	}
 	h.check("listener sessions", "listener")
 	_ = l.Close()
+	return res
+}
+
+// c06TinyPipelined: tiny negotiated msize and several failing requests in flight together (each gets a reply buffer
+// of its own, not the one the Rversion went out in): their error replies have to be cut to fit; with the akaros
+// switch on the replies carry an extra prefix.
+func c06TinyPipelined(ctx *core.Ctx, server string, dotu bool) core.Result {
+	var res core.Result
+	h := newHostile(ctx, &res, server, dotu)
+	if h == nil {
+		return res
+	}
+	defer h.done()
+	for msize := uint32(24); msize <= 72; msize += 1 {
+		c := h.s.Dial()
+		what := fmt.Sprintf("%s dotu=%v akaros=%v msize=%d pipelined failing requests", server, dotu, *go9p.Akaros, msize)
+		ctx.Note([]byte(what))
+		fmt.Fprintln(os.Stderr, "--- session:", what)
+		c.Version(msize, h.ver(), W)
+		var ms []*wire.Msg
+		for i := 0; i < 6; i++ {
+			m := &wire.Msg{Type: wire.Tclunk, Tag: uint16(10 + i), Fid: uint32(900 + i)}
+			if i%2 == 1 {
+				m = &wire.Msg{Type: wire.Tstat, Tag: uint16(10 + i), Fid: uint32(900 + i)}
+			}
+			ms = append(ms, m)
+		}
+		_ = c.Send(ms...)
+		for _, m := range ms {
+			if _, err := c.WaitTag(m.Tag, 300*time.Millisecond); err != nil {
+				break
+			}
+		}
+		c.Hangup()
+		res.Sig(fmt.Sprintf("%s|%v|tiny-pipelined|%d|%v", server, dotu, msize, *go9p.Akaros))
+		h.check(what, "tinymsize-pipelined")
+	}
 	return res
 }
